@@ -604,3 +604,11 @@ for _how, _id in (('FLIPCMP', 'comparisons-flipped-tree'), ('SWAPIF', 'branches-
                   ('COMPVARS', 'comprehension-variables-renamed-tree'), ('HOISTARG', 'nested-calls-hoisted-tree')):
     for _p in ['C11', 'C12', 'C01', 'C02', 'C04', 'C05', 'C06', 'C07', 'C08', 'C09', 'C10', 'C13', 'C14', 'C15', 'C16', 'C18', 'C19', 'C20']:
         MUTANTS.append({'prop': _p, 'id': _id, 'kind': 'T', 'edits': _how})
+
+# ------------------------------------------------------------------ every property: second family of whole-tree rewrites (runner.transform_tree2)
+for _how, _id in (('NOTIN', 'negated-membership-tree'), ('TUPSPLIT', 'tuple-assignments-split-tree'), ('IFEXPSTMT', 'conditional-expressions-as-statements-tree'),
+                  ('WHILEBRK', 'while-true-break-tree'), ('COMPLOOP', 'comprehensions-as-loops-tree'), ('LAMBDADEF', 'lambdas-as-defs-tree'),
+                  ('NPALIAS', 'numpy-unaliased-tree'), ('ELSEWRAP', 'else-after-jump-tree'), ('ELSEUNWRAP', 'no-else-after-jump-tree'),
+                  ('RANGE0', 'range-from-zero-tree'), ('EMPTYLIT', 'empty-containers-by-call-tree')):
+    for _p in ['C11', 'C12', 'C01', 'C02', 'C04', 'C05', 'C06', 'C07', 'C08', 'C09', 'C10', 'C13', 'C14', 'C15', 'C16', 'C18', 'C19', 'C20']:
+        MUTANTS.append({'prop': _p, 'id': _id, 'kind': 'T', 'edits': _how})
